@@ -45,6 +45,14 @@ type c04DeclBoolChoice struct {
 	S string `short:"s"`
 }
 
+type c04Run struct {
+	Colour string `long:"colour-mode" optional:"yes" optional-value:"auto" description:"when to use colours"`
+}
+type c04DeclHelpLayout struct {
+	F   bool   `short:"f" long:"flag" description:"a flag"`
+	Run c04Run `command:"run"`
+}
+
 type c04DeclEnv struct {
 	F bool   `short:"f" long:"flag"`
 	N int    `long:"num" env:"C04_NUM"`
@@ -73,6 +81,8 @@ func c04Parser(v *V, variant int, opts Options, cbCalled *bool) *Parser {
 		p.AddGroup("Application Options", "", &c04DeclHiddenCmds{})
 	case 4:
 		p.AddGroup("Application Options", "", &c04DeclEnv{})
+	case 5:
+		p.AddGroup("Application Options", "", &c04DeclHelpLayout{})
 	}
 	return p
 }
@@ -186,6 +196,11 @@ func H_C04_typed(v *V) {
 			// help requested while a command is active (the first word fills the positional)
 			fault = append([]string{"w", "cmd"}, fault...)
 		}
+		want = ErrHelp
+	case 15: // help requested while a command is active whose widest entry is an option with an optional argument
+		variant = 5
+		opts |= HelpFlag
+		fault = [][]string{{"run", "--help"}, {"run", "-h"}, {"--help"}, {"run", "--colour-mode", "--help"}}[v.Choice(4)]
 		want = ErrHelp
 	case 12: // the fault arrives through the environment: not a number
 		// (an environment value cannot hold a NUL byte)
